@@ -41,6 +41,12 @@ CHECKS = {
   text="BFS to depth 3 (quick) / 4 (thorough), from the empty state and from a populated state, over AddFact / RemFact / AddRule / RemRule / SetParents(every parent set of size <= 2: self-loops, 2- and 3-cycles, chains, fans, diamonds) / ProcessEvent on three locations, driven through core.SimpleLocationProvider and through sys.System, on both states. The rule has an inherited pattern condition and an action that calls Env.AddFact. After every step each location's inherited and local searches, rule candidates, query and parents are compared with a model (tree-shaped ancestry: own + transitive parents; looping ancestry: an error, and the call returns), and the private state + storage of every location other than the one operated on must be unchanged.",
   note="Diamond ancestry is outside the statement's forests (skipped, counted). Actions run with serialActions (concurrent actions are C04/C12). A worker that dies is attributed to its journaled history.",
   design="2/C09"),
+ "C19": dict(
+  engine="GEN+SEQ",
+  technique="exhaustive enumeration of the product protection state x caller context x operation x set-up history on the real Location (directly and via sys.System), privileged before/after snapshot and unprotected-twin oracle",
+  text="The full product of 16 protection states (write key x read key x read-only x disabled), 13 caller contexts (no/wrong/right write and read key, also as SubContexts), 27 operations (whole Location API, Env.* location functions reached from RunJavascript, events whose rule actions mutate), 4 set-up histories, both states and both drivers is executed: a mutating call without write authority must fail and leave private state + storage identical, a revealing call without read authority must fail and return no data, a fully authorised call must equal the same call on an unprotected twin.",
+  note="The mutating/revealing classification is argued at the top of c19.go (RuleEnabled, GetParents unclassified). ListRules' documented swallowing of the search error (empty list) is accepted as a refusal.",
+  design="2/C19"),
  "C10": dict(
   engine="SEQ",
   technique="explicit-state model checking: exhaustive BFS over rule-lifecycle histories (add/overwrite/remove/disable/enable/reload/location toggle/expiry) under a virtual clock, lifecycle-automaton oracle",
